@@ -38,6 +38,10 @@ def default_classify(skip=('self', 'cls')):
     return classify
 
 
+def _bound_label(b):
+    return b if isinstance(b, str) else f"container sizes 0..{b}, contents symbolic"
+
+
 def run_proof_check(prop, contract_modules, source_modules, *, level='proof', classify=None, harness=None,
                     bounded_rule=None, extra_assumptions=(), checker_note='', bounded_exhaustive=False):
     t0 = time.time()
@@ -64,7 +68,7 @@ def run_proof_check(prop, contract_modules, source_modules, *, level='proof', cl
             violations.append(Violation(prop, oid, oid, text, replay, bool(confirmed)))
     proved = [o for o in table if obs[o['id']]['function'] not in bs_funcs]
     proved += [{k: v for k, v in so.items() if k not in ('contract_module',)} for _, so in sorted(static.items())]
-    bsym = [dict(o, bound=f"container sizes 0..{bs_funcs[obs[o['id']]['function']]}, contents symbolic")
+    bsym = [dict(o, bound=_bound_label(bs_funcs[obs[o['id']]['function']]))
             for o in table if obs[o['id']]['function'] in bs_funcs]
     coverage = {
         'obligations': len(proved), 'discharged': len([o for o in proved if o['status'] == 'discharged']),
@@ -134,7 +138,7 @@ def proof_subobligations(prop, contract_modules, source_modules, classify=None):
                                         {'kind': 'static-obligation', 'detail': so['detail']}, False))
     proved = [o for o in table if obs[o['id']]['function'] not in bs_funcs]
     proved += [{k: v for k, v in so.items() if k != 'contract_module'} for _, so in sorted(static.items())]
-    bsym = [dict(o, bound=f"container sizes 0..{bs_funcs[obs[o['id']]['function']]}, contents symbolic")
+    bsym = [dict(o, bound=_bound_label(bs_funcs[obs[o['id']]['function']]))
             for o in table if obs[o['id']]['function'] in bs_funcs]
     part = {
         'proved_subobligations': {
